@@ -4,6 +4,7 @@ import (
 	"context"
 	"encoding/json"
 	"fmt"
+	"strings"
 
 	"github.com/herohde/morlock/pkg/board"
 	"github.com/herohde/morlock/pkg/eval"
@@ -172,9 +173,10 @@ func firstRich() int {
 // a table is given the same moves. At every position the two must report the same score, and
 // the move played must be worth it.
 type c11engCase struct {
-	FEN   string
-	Depth int
-	Plies int
+	FEN    string
+	Depth  int
+	Plies  int
+	Before string `json:",omitempty"` // an earlier game both engines were set up with and analysed before this one (a new game starts with Reset)
 }
 
 func init() {
@@ -202,6 +204,20 @@ func runC11Engine(ctx context.Context, cs c11engCase, vm *valueMemo) (msg string
 		return &engineUnderTest{e}
 	}
 	with, without := mk(1), mk(0)
+	if cs.Before != "" {
+		// the earlier game: same engines, set up and analysed, then the game under test is set up
+		for _, e := range []*engineUnderTest{with, without} {
+			if err := e.e.Reset(ctx, cs.Before); err != nil {
+				return "earlier game rejected: " + err.Error(), 0
+			}
+			if _, err := e.analyse(ctx, cs.Depth); err != nil {
+				return "analysis of the earlier game failed: " + err.Error(), 0
+			}
+			if err := e.e.Reset(ctx, cs.FEN); err != nil {
+				return "reset rejected: " + err.Error(), 0
+			}
+		}
+	}
 	g, err := ref.GameFromFEN(cs.FEN)
 	if err != nil {
 		return "bad FEN", 0
@@ -262,7 +278,15 @@ func engineGames(c *harness.Check, vm *valueMemo) {
 		if stringsContains(r.Tags, "rich") {
 			d = c.Pick(2, 3)
 		}
-		cases = append(cases, c11engCase{r.FEN, d, 4}, c11engCase{r.FEN, d - 1, 6})
+		cases = append(cases, c11engCase{FEN: r.FEN, Depth: d, Plies: 4}, c11engCase{FEN: r.FEN, Depth: d - 1, Plies: 6})
+		// a new game after one whose values were shaped by its history: the same placement two and one
+		// half-moves from the fifty-move draw (every quiet line there is worth 0)
+		if f := strings.Fields(r.FEN); len(f) == 6 {
+			for _, clock := range []string{"98", "99"} {
+				f[4] = clock
+				cases = append(cases, c11engCase{FEN: r.FEN, Depth: d, Plies: 2, Before: strings.Join(f, " ")})
+			}
+		}
 	}
 	var cc classCap
 	harness.Parallel(len(cases), func(i int) {
